@@ -17,6 +17,14 @@ CHECKS = {
    text="Seeded search over simulated runs of the real writer (introducer, persister, merger, deletion policy, FileSystemDirectory/InMemoryDirectory, ice v1/v2) under a gate scheduler: a generated single-client history meets many physical segmentations, and after every window in which the root changed a fresh Reader is compared document by document (Count, match-all, lookup by _id, stored fields) with the abstract index. Sampling, not proof; the right level because the property quantifies over histories x schedules x configurations.",
    note="Trusted: the gate wrappers delegate faithfully; the abstract index (40 lines) is the specification; runs are sampled by seed.",
    technique="deterministic simulation: seeded gate scheduler over the real writer, abstract-index oracle after every window"),
+ "C02": dict(level="fault_enumeration", ref="3/C02",
+   text="Runs are sampled by seed; within every run the crash instants are enumerated completely: the directory image after each mutating directory operation, torn variants of the persist in flight and subsets of each unordered remove group. Every distinct image is recovered by the real open path in a child process and must contain each batch acknowledged in an earlier scheduler window and equal an abstract state the index went through. Enumeration of crash points is the right level for 'whatever instant the process dies afterwards'.",
+   note="Trusted: a file is durable once Persist returned (decided by C13); acknowledgements are ordered against directory operations at window granularity (an ack in the same window as an operation is treated as after it, which is sound); runs themselves are sampled.",
+   technique="deterministic simulation + crash-point enumeration: recorded directory trace -> images -> recovery in a child process, durability oracle against the abstract index"),
+ "C03": dict(level="fault_enumeration", ref="3/C03",
+   text="As C02 with the whole torn-variant set (prefix lengths, zero-filled, stale tail) and crash / recover / continue / crash sequences: seeded images of each run are continued by a further simulated run whose own trace is enumerated again (depth 2, thorough 3). Per image: the opening process neither dies nor panics, open succeeds whenever a snapshot had been completed, recovered content is exactly one prefix state, the recovered writer accepts a batch that survives close and reopen.",
+   note="Trusted: torn-write model = prefix / zero-fill / stale tail of the in-flight file, other files intact; the free-running writer probe in the child is a sample, the deterministic continuation is the forked simulated run; a recovered index is reopened with the segment format it was written with.",
+   technique="deterministic simulation + torn-write crash enumeration with fork-from-image continuation (depth >= 2), prefix-consistency oracle"),
  "C04": dict(level="exploration", ref="3/C04",
    text="Seeded search over simulated runs in which client actors hold several Readers of different ages open while batches, merges, persist swaps, unlinks and Close are scheduled between their reads; the first full read (count, match-all, stored fields, id lookup, sorted top-N over document values, aggregations, dictionary scan, phrase/boolean/conjunction/disjunction/range/prefix queries) is the baseline (checked against the abstract index at acquisition) and every later read must be identical; a fault of the process is reported as the violation. Sampling of schedules, not proof.",
    note="Trusted: gate wrappers delegate; regions between gates are atomic w.r.t. other gated actors; reads cover the listed query kinds only.",
